@@ -1,6 +1,7 @@
 """Shared workload for C05 (never panics / over-allocates / hangs) and C06 (successful decodes conform)."""
 import bz2
 import json
+import os
 import lzma
 import random
 import zlib
@@ -234,6 +235,21 @@ def run_engines(run, limits, which):
             run.distinct.add(repr((k.rstrip('0123456789'), L, json.dumps(ctx.get('schema'))[:100])).encode())
             for v in r['violations']:
                 found.append((v['sig'], v['count'], v['first'], ctx))
+    if which == 'c05' and (thorough or os.environ.get('VERIF_SANITIZERS') == '1'):
+        # memory-safety monitors over the decompressors (the part of the decode path that is not safe Rust):
+        # Miri for the Rust codecs (snappy, deflate, bzip2), valgrind memcheck for the C ones (xz, zstandard) and the container path
+        from .. import sanitizers
+        L = min(limits)
+        streams = codec_streams(run.seed, L, False)
+        small = {n: [x for x in ss if len(x) <= 1200][:14] for n, ss in streams.items()}
+        miri_cases = [[{'id': 'mcd%s%d' % (n, k), 'op': 'fuzz_codec', 'codec': {'name': n}, 'streams': small[n][k::2], 'limit': L, 'random': 6, 'seed': 11}]
+                      for n in ('snappy', 'deflate', 'bzip2') if small.get(n) for k in range(2)]
+        sanitizers.miri_stage(run, miri_cases, {}, max_cases=len(miri_cases), shards=6, what='codec_ops', max_bytes=10 ** 9, settings={'max_allocation_bytes': L})
+        vg_cases = [[{'id': 'vcd%s' % n, 'op': 'fuzz_codec', 'codec': {'name': n}, 'streams': [x for x in ss if len(x) <= 40000][:40], 'limit': L, 'random': 60, 'seed': 13}]
+                    for n, ss in streams.items()]
+        hf = [f.hex() for f in hostile_files(L)][:60]
+        vg_cases += [[{'id': 'vhf%d' % k, 'op': 'fuzz_container', 'files': hf[k:k + 12], 'limit': L, 'heavy': False, 'mutate': False}] for k in range(0, len(hf), 12)]
+        sanitizers.memcheck_stage(run, vg_cases, {}, max_cases=len(vg_cases), shards=12, settings={'max_allocation_bytes': L})
     run.cov['limits_run'] = ['default' if L == DEFAULT_L else L for L in limits]
     run.cov['schemas_in_corpus'] = len(schemas)
     return found
